@@ -126,7 +126,8 @@ def build_system(ctx, shape, assume_nonneg=True, sysname="sys", rt="none"):
             ctx.assume(d > 0)
             ctx.nice(d, [10.0 * (n + 1), 3.0 + n])
             durations[p] = d
-        sysobj.set_sys_phases(dict(durations))
+        if not shape.get("comp_phases_first"):
+            sysobj.set_sys_phases(dict(durations))
         for idx, nd in enumerate(shape["nodes"]):
             pc = nd.get("phases")
             if pc is None:
@@ -148,6 +149,12 @@ def build_system(ctx, shape, assume_nonneg=True, sysname="sys", rt="none"):
             # the API resolves rail names as well as component names
             sysobj.set_comp_phases(nd["rail"] if nd.get("phase_via_rail") else name, conf)
             info[name]["conf"] = conf
+        if shape.get("comp_phases_first"):
+            # components configured before the system phases are (re)defined; configurations may name phases that are
+            # not (or not yet / no longer) defined - such a component is simply never listed
+            if shape.get("redefine_phases"):
+                sysobj.set_sys_phases({**{p: 1.0 for p in shape["redefine_phases"]}})
+            sysobj.set_sys_phases(dict(durations))
     return sysobj, info, durations
 
 
@@ -230,7 +237,23 @@ class Wrapped:
             return v, i, state
 
         sysobj._sys_init = sym_init
-        if self.stub_warns:
+        if self.stub_warns == "bounded":
+            # the real warning code, restricted to the stated bound: every quantity stays inside the documented DEFAULT
+            # range (no fork per default limit); limits supplied by the harness are compared for real
+            self._old_warns = orig_w = C._Component._solv_get_warns
+
+            def bounded(self_, vi, vo, ii, io, ta, phase, phase_conf):
+                from .props.c09 import quantities, exceeded, DEFAULTS
+                from .ops import Not
+
+                pw = self_._solv_pwr_loss(vi, vo, ii, io, ta, phase, phase_conf)
+                q = quantities(vi, vo, ii, io, pw)
+                for k in self_._get_limits():
+                    ctx.assume(Not(exceeded(k, q[k], DEFAULTS[k])))
+                return orig_w(self_, vi, vo, ii, io, ta, phase, phase_conf)
+
+            C._Component._solv_get_warns = bounded
+        elif self.stub_warns:
             self._old_warns = C._Component._solv_get_warns
             C._Component._solv_get_warns = lambda self_, *a, **k: ""
         return self
